@@ -116,7 +116,7 @@ def exact_milli(x, tol=1e-9):
 # C08: national summary
 
 
-def run_summary_injected(ns, alpha=0.9, sigmoid_T=None):
+def run_summary_injected(ns, alpha=0.9, sigmoid_T=None, earlier_round=False):
     """ns: a NationalSummary scenario (p, b1, b2 per contest in thousandths, w, lhs, rhs, stop, corr, base, nweights).
     Drives the real get_aggregate_predictions -> get_aggregate_prediction_intervals -> get_national_summary_estimates."""
     from elexmodel.models.BootstrapElectionModel import BootstrapElectionModelException
@@ -131,6 +131,15 @@ def run_summary_injected(ns, alpha=0.9, sigmoid_T=None):
     nr["pred_margin"] = np.asarray(preds, dtype=float)
     agg = ["postal_code"]
     kw = dict(lhs_called_contests=list(ns["lhs"]), rhs_called_contests=list(ns["rhs"]))
+    if earlier_round:
+        # an earlier round of the contest-level calls on the SAME model object with other lists (every contest called for the
+        # side its prediction favours, every contest on the stop list): the model object carries `called_contests` /
+        # `stop_model_call` from one aggregate call to the summary, and every top-level aggregate call overwrites them -
+        # the summary is a function of the lists in force, not of what was in force before (NationalSummary.tla: `called`,
+        # `stop` are assigned by every top-level interval step; seeded change C08_J)
+        kw0 = dict(lhs_called_contests=[c for c in contests if ns["p"][c] > 0], rhs_called_contests=[c for c in contests if ns["p"][c] <= 0])
+        model.get_aggregate_predictions(r, nr, x, agg, "margin", **kw0)
+        model.get_aggregate_prediction_intervals(r, nr, x, agg, alpha, None, "margin", stop_model_call=list(contests), **kw0)
     model.get_aggregate_predictions(r, nr, x, agg, "margin", **kw)
     model.get_aggregate_prediction_intervals(r, nr, x, agg, alpha, None, "margin", stop_model_call=list(ns["stop"]), **kw)
     weights = {c: ns["w"][c] for c in contests[: max(0, min(len(contests), ns["nweights"]))]}  # {} when nweights = 0
